@@ -58,7 +58,7 @@ def run(ck):
     ck.cov["rule"] = ("obligations = theorems of Props/C02.lean (one per instruction struct + conjunction + register sets + addresses + x0), each over ALL operand values; "
                       "evaluations = single-instruction cases run on the real code (risc.Parse of one line, then Run/ReadRegisters/WriteRegisters/MemoryRead/MemoryWrite) and compared with "
                       "(a) the regenerated Lean definitions and (b) Spec.exec: boundary lattice exhaustively over value pairs, every register-alias pattern, random values/registers/forward slots/undefined labels; "
-                      "distinct_nontrivial = distinct (instruction text, register values, forward, memory bytes, pc) tuples")
+                      "every case without forward slot additionally runs on a context with the rename table on (older write = the operand value, younger write = garbage, sequence id between them): outcome and addresses must equal the plain run's; distinct_nontrivial = distinct (instruction text, register values, forward, memory bytes, pc) tuples")
     if okh and built:
         ins, go, lean = ck.run_stream("c02")
         per_mn, tie_bad, prop_bad = compare(ck, ins, go, lean)
